@@ -73,3 +73,33 @@ refactor("c03-rename-locals", "C03", [(OB, "let trade_vol = min(agg_order.vol, p
           "let filled = min(agg_order.vol, pass_order.vol);\n    agg_order.vol -= filled;\n    pass_order.vol -= filled;"),
          (OB, "        vol: trade_vol,\n        active_order_id", "        vol: filled,\n        active_order_id"),
          (OB, "    };\n\n    trade_vol\n}", "    };\n\n    filled\n}")])
+
+# ------------------------------------------------------------------------------- C04
+mutant("c04-cancel-guard-weak", "C04", (OB, "if order_entry.order.status == Status::Active {\n                    order_entry.order.status = Status::Cancelled;",
+       "if order_entry.order.status != Status::Filled {\n                    order_entry.order.status = Status::Cancelled;"), expect="state-machine")
+mutant("c04-end-time-missing-cancel", "C04", (OB, "order_entry.order.status = Status::Cancelled;\n                    order_entry.order.end_time = self.t;\n                    match order_entry.key.0",
+       "order_entry.order.status = Status::Cancelled;\n                    match order_entry.key.0"), expect="end-time")
+mutant("c04-end-time-missing-passive", "C04", (OB, "    if pass_order.vol == 0 {\n        pass_order.end_time = t;\n", "    if pass_order.vol == 0 {\n"), expect="end-time")
+mutant("c04-arr-time-missing", "C04", (OB, "        order_entry.order.arr_time = self.t;\n", ""), expect="arr-time")
+mutant("c04-place-guard-removed", "C04", (OB, "        if order_entry.order.status != Status::New {\n            return;\n        }\n", ""), expect="state-machine")
+mutant("c04-start-vol-rewritten", "C04", (OB, "        order_entry.order.vol = new_vol;\n", "        order_entry.order.vol = new_vol;\n        order_entry.order.start_vol = new_vol;\n"), expect="immutable")
+mutant("c04-modify-guard-removed", "C04", (OB, "        if order_entry.order.status == Status::Active {\n            match (new_price, new_vol) {", "        if order_entry.order.status != Status::New {\n            match (new_price, new_vol) {"), expect="state-machine")
+mutant("c04-id-off-by-one", "C04", (OB, "        self.orders.len()\n    }", "        self.orders.len() + 1\n    }"), expect="dense-ids")
+mutant("c04-market-remainder-active", "C04", (OB, """                self.match_ask(order_entry);
+                if order_entry.order.status != Status::Filled {
+                    order_entry.order.status = Status::Cancelled;
+                    order_entry.order.end_time = self.t;
+                }""", """                self.match_ask(order_entry);"""), expect="exit-invariant")
+mutant("c04-end-time-from-arrival", "C04", (OB, "                order_entry.order.status = Status::Rejected;\n                order_entry.order.end_time = self.t;\n            }\n        }\n    }\n\n    /// Place a sell limit",
+       "                order_entry.order.status = Status::Rejected;\n                order_entry.order.end_time = order_entry.order.arr_time;\n            }\n        }\n    }\n\n    /// Place a sell limit"), expect="end-time")
+refactor("c04-swap-status-endtime", "C04", (OB, "                    order_entry.order.status = Status::Cancelled;\n                    order_entry.order.end_time = self.t;\n                    match order_entry.key.0",
+         "                    order_entry.order.end_time = self.t;\n                    order_entry.order.status = Status::Cancelled;\n                    match order_entry.key.0"))
+refactor("c04-cancel-if-let", ["C04", "C03"], (OB, """        let cancelled_order = self.orders.get_mut(order_id);
+
+        match cancelled_order {
+            Some(order_entry) => {
+                if order_entry.order.status == Status::Active {""", """        let cancelled_order = Some(self.orders.get_mut(order_id).expect("No order with id exists"));
+
+        match cancelled_order {
+            Some(order_entry) => {
+                if Status::Active == order_entry.order.status {"""))
